@@ -215,9 +215,22 @@ def st_process(spec):
             bad("C15.hashes-distinct", f"two tokenizers with different names share the hash {h}")
         seen_names[nm] = t
         seen_hashes[h] = nm
-        t2 = MazeTokenizerModular.load(json.loads(json.dumps(t.serialize())))
+        saved = t.serialize()
+        saved_text = json.dumps(saved)
+        t2 = MazeTokenizerModular.load(json.loads(saved_text))
         if not (t2 == t) or t2.name != nm or hash(t2) != h:
             bad("C15.save-load", f"serialize/load does not return an equal tokenizer with the same name: {nm[:120]}")
+        if len(seen_names) % 8 == 0:
+            # a saved form is loaded more than once (sanity-check it, then keep it): loading must not consume or alter it
+            try:
+                t3 = MazeTokenizerModular.load(saved)
+                t4 = MazeTokenizerModular.load(saved)
+                if not (t3 == t) or not (t4 == t) or t4.name != nm:
+                    bad("C15.save-load", f"loading the same saved form twice does not give equal tokenizers: {nm[:120]}")
+            except Exception as e:  # noqa: BLE001
+                bad("C15.save-load", f"loading the same saved form a second time raised {type(e).__name__}: {str(e)[:120]} ({nm[:80]})")
+            if json.dumps(saved) != saved_text:
+                bad("C15.save-load", f"loading altered the saved form it was given: {nm[:120]}")
         if t.is_legacy_equivalent() != (nm in legacy_names):
             bad("C15.legacy-equivalent", f"is_legacy_equivalent()={t.is_legacy_equivalent()} for {nm[:120]}")
     stats["sampled_tokenizers"] = len(sample)
